@@ -1,0 +1,79 @@
+//go:build verif
+
+package executor
+
+// Verification-only access to the executor's event handlers (package /verif, property C17).
+//
+// The executor's event loop (eventLoop) is a single goroutine that selects between the next agent
+// event, a queued status update and a queued outgoing message.  VerifExecutor lets a harness play
+// that loop step by step against the unmodified handlers (handleLaunchEvent, handleKillEvent,
+// handleMessageEvent, performStatusUpdate, sendOutgoingMessage, sendFailedTasks), with the HTTP
+// sender towards the Mesos agent replaced by the given calls.Sender.  Nothing here is compiled
+// without the build tag "verif".
+
+import (
+	"context"
+
+	"github.com/AliceO2Group/Control/executor/executable"
+	mesos "github.com/mesos/mesos-go/api/v1/lib"
+	"github.com/mesos/mesos-go/api/v1/lib/executor"
+	"github.com/mesos/mesos-go/api/v1/lib/executor/calls"
+	"github.com/mesos/mesos-go/api/v1/lib/executor/events"
+)
+
+type VerifExecutor struct {
+	state   *internalState
+	handler events.Handler
+}
+
+// NewVerifExecutor builds the same internalState as Run does, with cli as the agent connection.
+func NewVerifExecutor(cli calls.Sender) *VerifExecutor {
+	state := &internalState{
+		cli:            cli,
+		unackedTasks:   make(map[mesos.TaskID]mesos.TaskInfo),
+		unackedUpdates: make(map[string]executor.Call_Update),
+		failedTasks:    make(map[mesos.TaskID]mesos.TaskStatus),
+		killedTasks:    make(map[mesos.TaskID]mesos.TaskStatus),
+		activeTasks:    make(map[mesos.TaskID]executable.Task),
+		statusCh:       make(chan mesos.TaskStatus, 1024),
+		messageCh:      make(chan []byte),
+	}
+	return &VerifExecutor{state: state, handler: buildEventHandler(state)}
+}
+
+// HandleEvent is what eventLoop does with an event decoded from the agent connection.
+func (v *VerifExecutor) HandleEvent(e *executor.Event) error {
+	return v.handler.HandleEvent(context.TODO(), e)
+}
+
+// HandleMessage is the MESSAGE event handler, returning the error the event handler only logs.
+func (v *VerifExecutor) HandleMessage(data []byte) error {
+	return handleMessageEvent(v.state, data)
+}
+
+// HandleKill is the KILL event handler.
+func (v *VerifExecutor) HandleKill(id mesos.TaskID) error {
+	return handleKillEvent(v.state, &executor.Event_Kill{TaskID: id})
+}
+
+// StatusCh and MessageCh are the two queues eventLoop selects on besides the agent events.
+func (v *VerifExecutor) StatusCh() <-chan mesos.TaskStatus { return v.state.statusCh }
+func (v *VerifExecutor) MessageCh() <-chan []byte          { return v.state.messageCh }
+
+// PerformStatusUpdate is what eventLoop does with a status received from StatusCh, followed by
+// the housekeeping of its next iteration (sendFailedTasks).
+func (v *VerifExecutor) PerformStatusUpdate(status mesos.TaskStatus) {
+	performStatusUpdate(v.state, status)
+	sendFailedTasks(v.state)
+}
+
+// SendOutgoingMessage is what eventLoop does with a message received from MessageCh.
+func (v *VerifExecutor) SendOutgoingMessage(message []byte) { sendOutgoingMessage(v.state, message) }
+
+// IsActive reports whether the task is in the executor's map of controlled tasks.
+func (v *VerifExecutor) IsActive(id mesos.TaskID) bool {
+	v.state.activeTasksMu.RLock()
+	defer v.state.activeTasksMu.RUnlock()
+	t, ok := v.state.activeTasks[id]
+	return ok && t != nil
+}
